@@ -214,6 +214,12 @@ func intConst(rel, name string) int64 {
 	env := fileConsts(f)
 	e, ok := env[name]
 	if !ok {
+		// moved to another file of the package?
+		if e2, ok2 := pkgEnv(filepath.Dir(rel))[name]; ok2 {
+			e, ok, env = e2, true, pkgEnv(filepath.Dir(rel))
+		}
+	}
+	if !ok {
 		fail("%s: constant %s not found", rel, name)
 		return 0
 	}
@@ -228,6 +234,11 @@ func strConst(rel, name string) string {
 	f := parse(rel)
 	env := fileConsts(f)
 	e, ok := env[name]
+	if !ok {
+		if e2, ok2 := pkgEnv(filepath.Dir(rel))[name]; ok2 {
+			e, ok, env = e2, true, pkgEnv(filepath.Dir(rel))
+		}
+	}
 	if !ok {
 		fail("%s: string constant %s not found", rel, name)
 		return ""
